@@ -37,7 +37,7 @@ def jobs(tier):
             J.append(dict(op="div", D=D, b=b))
     # concrete probes far outside the symbolic bound (bug hunting only): interpreter limits such as the recursion depth (1000)
     # and the int <-> str conversion limit (4300 digits) are size thresholds no bounded exploration reaches
-    for D in (1100, 4400):
+    for D in (1100, 4299, 4300, 4301, 4400):     # 4300 is the interpreter's int <-> str digit limit: probe both sides of it
         J.append(dict(op="long", D=D))
     return J
 
@@ -45,7 +45,7 @@ def jobs(tier):
 def bounds(tier):
     js = jobs(tier)
     return {op: "D <= %d digits" % max(j["D"] for j in js if j["op"] == op) for op in ("add", "sub", "mul", "div")} | \
-        {"concrete probes (not deciding)": "1100- and 4400-digit numbers, 5 patterns"} | \
+        {"concrete probes (not deciding)": "1100-, 4299-, 4300-, 4301- and 4400-digit numbers, 5 patterns"} | \
         {"operand": "add/sub: symbolic digit 0..9; mul: each of 0..9; div: each of 1..9", "outside": "longer numbers (digit-serial code: see DESIGN for the induction)"}
 
 
